@@ -69,7 +69,7 @@ func (e *Engine) verifyFuncs(fns []*ssa.Function, opts SolveOpts, filter func(*O
 		if it.res.Err != "" || it.tr == nil {
 			continue
 		}
-		vs := it.tr.il.genVC(bg, func(decl string) string {
+		vs := it.tr.il.genVC(bg+e.revealAsserts(it.tr.contract), func(decl string) string {
 			// (declare-const |comp!old| sort)
 			if i := strings.Index(decl, "!old|"); i > 0 {
 				j := strings.Index(decl, "|")
